@@ -178,6 +178,10 @@ def _eval(specs, tier, stats):
     if tier == "thorough" and n >= 2:
         peak = ref.peak_live(specs)
         variants += [("hill", dict(max_iter=0)), ("hill", dict(max_iter=1, mem_limit=peak)), ("hill", dict(max_iter=10, mem_limit=max(peak - 16, 0)))]
+    if tier != "depth4" and (n == 2 or (n >= 2 and tier == "thorough")):
+        # an iteration limit of zero with a memory limit that cannot be met: the search may only run its 500-iteration grace
+        peak0 = ref.peak_live(specs)
+        variants += [("hill", dict(max_iter=0, mem_limit=max(peak0 - 16, 0))), ("hill", dict(max_iter=3, mem_limit=0))]
     # equivalence / duplicates: first range carries an equivalent clone; first two declared duplicate constants if same size
     if n == 2 or (n >= 2 and tier == "thorough"):
         variants += [("greedy", dict(equiv=(0,))), ("hill", dict(equiv=(n - 1,))), ("linear", dict(equiv=(0,)))]
